@@ -8,7 +8,7 @@
 //!                   {"op":"inject","key":K,"pid":P,"ty":"A","x":5}
 //!                   {"op":"batch","key":K,"pid":P,"events":[["A",5],["B",1]]}
 //!                   {"op":"reload","key":K,"pid":P,"src":0..3}
-//!                   {"op":"restore","key":K,"pid":P,"cp":n}        (n-th successful checkpoint answer)
+//!                   {"op":"restore","key":K,"pid":P,"cp":n}        (checkpoint answer number n mod how many there are so far)
 //!                   {"op":"create_tenant","admin":A,"name":"t"} {"op":"list_tenants","admin":A}
 //!                   {"op":"get_tenant"|"delete_tenant","admin":A,"tid":"t0"} ]}
 //! K: a key string, "@t<k>" (the key of the k-th tenant ever created) or null (no header).  P: "p<k>" = k-th pipeline ever deployed in this sequence (any tenant),
@@ -166,7 +166,13 @@ pub fn run(req: &J) -> J {
                 ),
                 "reload" => ("POST", format!("/api/v1/pipelines/{}/reload", pid), json!({"j": {"source": src(op)}})),
                 "restore" => {
-                    let cp = checkpoints.get(op["cp"].as_u64().unwrap_or(0) as usize).cloned().unwrap_or(J::Null);
+                    // n-th checkpoint taken so far, modulo how many there are; an empty checkpoint when there is none yet
+                    let cp = if checkpoints.is_empty() {
+                        json!({"version": 1, "window_states": {}, "sase_states": {}, "join_states": {}, "variables": {},
+                               "events_processed": 0, "output_events_emitted": 0})
+                    } else {
+                        checkpoints[(op["cp"].as_u64().unwrap_or(0) as usize) % checkpoints.len()].clone()
+                    };
                     ("POST", format!("/api/v1/pipelines/{}/restore", pid), json!({"j": {"checkpoint": cp}}))
                 }
                 "create_tenant" => ("POST", "/api/v1/tenants".into(), json!({"j": {"name": op["name"]}})),
